@@ -116,12 +116,15 @@ Proof.
   unfold deletables. rewrite !filter_In. tauto.
 Qed.
 
-(* commit b06b6de: nothing whose basename is a control filename (.bzr, .git) is ever deletable *)
-Theorem control_names_never_deletable fl o ign t vs p :
-  In p (deletables fl o ign t vs) -> is_control_name (last_name p) = false.
+(* commits b06b6de + edd5827: nothing with a control filename (.bzr, .git) among its path components
+   is ever deletable *)
+Theorem control_names_never_deletable fl o ign t vs p c :
+  In p (deletables fl o ign t vs) -> In c p -> is_control_name c = false.
 Proof.
-  unfold deletables. rewrite !filter_In. unfold not_control. intros (((_ & H) & _) & _).
-  apply negb_true_iff in H. exact H.
+  unfold deletables. rewrite !filter_In. unfold not_control. intros (((_ & H) & _) & _) Hc.
+  apply negb_true_iff in H. destruct (is_control_name c) eqn:E; [|reflexivity].
+  assert (existsb is_control_name p = true) as X; [|congruence].
+  apply existsb_exists. eauto.
 Qed.
 
 (* ---- only what was requested --------------------------------------- *)
@@ -246,17 +249,53 @@ Proof.
   intros ->. rewrite app_nil_r in Hne. congruence.
 Qed.
 
-Theorem nested_top_kept fl o ign t vs p cs q :
+Lemma contains_control_kids cs c ch :
+  In (c, ch) cs -> contains_control ch = true -> contains_control (Dir cs) = true.
+Proof.
+  intros Hin Hc. cbn [contains_control]. apply orb_true_iff. right.
+  induction cs as [|[c' ch'] r IH]; [destruct Hin|].
+  destruct Hin as [E|Hin]; [injection E as -> ->; rewrite Hc; reflexivity|].
+  rewrite (IH Hin). apply orb_true_r.
+Qed.
+
+(* a branch root anywhere at or below a node makes [contains_control] true *)
+Lemma contains_control_lookup s : forall n cs,
+  lookup s n = Some (Dir cs) -> has_control cs = true -> contains_control n = true.
+Proof.
+  induction s as [|c s IH]; intros n cs Hl Hc.
+  - simpl in Hl. injection Hl as ->. cbn [contains_control]. rewrite Hc. reflexivity.
+  - cbn [lookup] in Hl. destruct n as [| |cs0]; try discriminate.
+    destruct (find_child c cs0) as [ch|] eqn:F; [|discriminate].
+    eapply contains_control_kids; [apply find_child_In; exact F|]. eapply IH; eassumption.
+Qed.
+
+Lemma contains_control_is_dir n : contains_control n = true -> exists cs, n = Dir cs.
+Proof. destruct n; try discriminate. eauto. Qed.
+
+(* a deletable never is an ancestor-or-self of a branch root (07ac4fc) *)
+Lemma deletable_not_above_branch fl o ign t vs p s cs :
+  In p (deletables fl o ign t vs) ->
+  lookup (p ++ s) t = Some (Dir cs) -> has_control cs = true -> False.
+Proof.
+  intros Hin Hl Hc. apply deletables_extras in Hin as (_ & _ & Hk).
+  rewrite lookup_app in Hl. destruct (lookup p t) as [n|] eqn:E; [|discriminate].
+  pose proof (contains_control_lookup s n cs Hl Hc) as Hcc.
+  destruct (contains_control_is_dir n Hcc) as (cs0 & ->).
+  unfold keep_nested in Hk. rewrite E, Hcc in Hk. discriminate.
+Qed.
+
+(* an unversioned item that holds a branch root ANYWHERE at or below it is kept with all it contains *)
+Theorem nested_tree_kept fl o ign t vs p s cs q :
   wf_node t = true ->
-  In p (extras fl t vs) -> lookup p t = Some (Dir cs) -> has_control cs = true ->
+  In p (extras fl t vs) -> lookup (p ++ s) t = Some (Dir cs) -> has_control cs = true ->
   is_prefix p q = true ->
   kind_at q (clean fl o ign t vs) = kind_at q t.
 Proof.
   intros Hw Hp Hl Hc Hq. apply untouched_unless_below_deletable. intros p' Hin.
   destruct (prefix_false_or_true p' q) as [|Hp']; [assumption|exfalso].
-  apply deletables_extras in Hin as (He' & _ & Hk).
   destruct (path_eq_dec p p') as [<-|Hne].
-  { unfold keep_nested in Hk. rewrite Hl, Hc in Hk. discriminate. }
+  { eapply deletable_not_above_branch; eassumption. }
+  apply deletables_extras in Hin as (He' & _ & _).
   destruct fl.
   - pose proof (bzr_extras_sound t vs p Hw Hp) as (Hpn & Hpu & _ & _ & Hpp).
     pose proof (bzr_extras_sound t vs p' Hw He') as (Hpn' & Hpu' & _ & _ & Hpp').
@@ -266,7 +305,31 @@ Proof.
     + destruct (strict_prefix_split p' p H (not_eq_sym Hne)) as (b & -> & Hb).
       rewrite (versioned_dir_versioned _ _ (Hpp p' b eq_refl Hpn' Hb)) in Hpu'. discriminate.
   - apply git_extras_sound in Hp as (_ & _ & (n & Hl' & Hd) & _); [|assumption].
-    rewrite Hl in Hl'. injection Hl' as <-. discriminate.
+    rewrite lookup_app, Hl' in Hl.
+    pose proof (contains_control_lookup s n cs Hl Hc) as Hcc.
+    destruct (contains_control_is_dir n Hcc) as (cs0 & ->). discriminate.
+Qed.
+
+(* the control directory of every branch in the tree (its own, nested at any depth, of any registered
+   format) survives with everything it holds: 07ac4fc + edd5827 + b06b6de *)
+Theorem control_dirs_safe fl o ign t vs a cs c q :
+  lookup a t = Some (Dir cs) -> has_control cs = true ->
+  is_control_name c = true -> is_prefix (a ++ [c]) q = true ->
+  kind_at q (clean fl o ign t vs) = kind_at q t.
+Proof.
+  intros Hl Hc Hn Hq. apply untouched_unless_below_deletable. intros p Hin.
+  destruct (prefix_false_or_true p q) as [|Hp]; [assumption|exfalso].
+  destruct (prefix_comparable p (a ++ [c]) q Hp Hq) as [H|H].
+  - apply is_prefix_spec in H as (b & E).
+    destruct (nonempty_app_cases b) as [->|(b' & x & ->)].
+    + rewrite app_nil_r in E. subst p.
+      rewrite (control_names_never_deletable _ _ _ _ _ _ c Hin) in Hn; [discriminate|].
+      apply in_or_app; right; left; reflexivity.
+    + rewrite app_assoc in E. apply app_inj_tail in E as [-> _].
+      eapply deletable_not_above_branch; eassumption.
+  - apply is_prefix_spec in H as (b & ->).
+    rewrite (control_names_never_deletable _ _ _ _ _ _ c Hin) in Hn; [discriminate|].
+    apply in_or_app; left. apply in_or_app; right; left; reflexivity.
 Qed.
 
 (* git trees: nothing at or below a directory that holds a ".git" entry is deleted *)
@@ -295,17 +358,19 @@ Qed.
 Definition nm (l : list N) : name := l.
 Definition only_unknown : opts := Build_opts true false false false None.
 
-(* bzr tree: u/n/.bzr/branch-format + u/n/work, nothing versioned *)
+(* bzr tree: u/n/.bzr/branch-format + u/n/work, nothing versioned: the former witness of
+   C46-deep-nested-branch (fixed by 07ac4fc) is now left as it is *)
 Definition deep_tree : node :=
   Dir [(n_bzr, Dir []);
        (nm [117], Dir [(nm [110], Dir [(n_bzr, Dir [(n_branch_format, File)]); (nm [119], File)])])]%N.
 
-Lemma deep_refuted :
+Lemma deep_now_safe :
   wf_node deep_tree = true /\
   (exists cs, lookup [nm [117]; nm [110]]%N deep_tree = Some (Dir cs) /\ has_control cs = true) /\
-  kind_at [nm [117]; nm [110]; n_bzr]%N (clean Bzr only_unknown [] deep_tree []) = None.
+  In [nm [117]]%N (extras Bzr deep_tree []) /\
+  clean Bzr only_unknown [] deep_tree [] = deep_tree.
 Proof.
-  split; [reflexivity|]. split; [|reflexivity]. eexists. split; reflexivity.
+  split; [reflexivity|]. split; [eexists; split; reflexivity|]. split; [left; reflexivity|reflexivity].
 Qed.
 
 (* ---- foreign control directories (fixed by b06b6de) ----------------- *)
@@ -324,11 +389,11 @@ Theorem foreign_control_safe_bzr o ign t vs d c q :
 Proof.
   intros Hw Hpc Hd Hc Hu Hq. apply untouched_unless_below_deletable. intros p Hin.
   destruct (prefix_false_or_true p q) as [|Hp]; [assumption|exfalso].
-  pose proof (control_names_never_deletable _ _ _ _ _ _ Hin) as Hn.
+  pose proof (control_names_never_deletable _ _ _ _ _ _ c Hin) as Hn.
   apply deletables_extras in Hin as (He & _).
   apply bzr_extras_sound in He as (Hpn & Hpu & _ & _ & Hpp); [|assumption].
   destruct (path_eq_dec p (d ++ [c])) as [->|Hne].
-  { rewrite last_name_snoc in Hn. congruence. }
+  { rewrite Hn in Hc; [discriminate|]. apply in_or_app; right; left; reflexivity. }
   destruct (prefix_comparable p (d ++ [c]) q Hp Hq) as [H|H].
   - destruct (strict_prefix_split p (d ++ [c]) H Hne) as (b & E & Hb).
     (* p is a prefix of d *)
@@ -361,14 +426,31 @@ Lemma coloc_now_safe :
   In [n_git] (extras Bzr coloc_tree coloc_vs).
 Proof. repeat split. left; reflexivity. Qed.
 
-(* git tree with a nested bzr branch n/.bzr/branch-format *)
+(* git tree with a nested bzr branch n/.bzr/branch-format + n/w: the former witness of
+   C46-git-tree-nested-bzr (fixed by edd5827): the control file stays, but the working file n/w of the
+   nested branch is still deleted as an unknown file of the outer tree *)
 Definition gitbzr_tree : node :=
   Dir [(n_git, Dir []); (nm [110], Dir [(n_bzr, Dir [(n_branch_format, File)]); (nm [119], File)])]%N.
 
-Lemma git_nested_bzr_refuted :
+Lemma git_nested_bzr_now :
   wf_node gitbzr_tree = true /\
   (exists cs, lookup [nm [110]]%N gitbzr_tree = Some (Dir cs) /\ has_control cs = true) /\
-  kind_at [nm [110]; n_bzr; n_branch_format]%N (clean Git only_unknown [] gitbzr_tree []) = None.
+  kind_at [nm [110]; n_bzr; n_branch_format]%N (clean Git only_unknown [] gitbzr_tree []) = Some KFile /\
+  kind_at [nm [110]; nm [119]]%N (clean Git only_unknown [] gitbzr_tree []) = None.
 Proof.
-  split; [reflexivity|]. split; [|reflexivity]. eexists. split; reflexivity.
+  split; [reflexivity|]. split; [eexists; split; reflexivity|]. split; reflexivity.
+Qed.
+
+(* bzr tree: v versioned, v/.git/HEAD (v is the root of a git repository), v/k unversioned *)
+Definition bzrgit_tree : node :=
+  Dir [(n_bzr, Dir []); (nm [118], Dir [(n_git, Dir [(nm [72;69;65;68], File)]); (nm [107], File)])]%N.
+Definition bzrgit_vs : list (path * bool) := [([nm [118]], true)]%N.
+
+Lemma bzr_versioned_git_root_now :
+  wf_node bzrgit_tree = true /\
+  (exists cs, lookup [nm [118]]%N bzrgit_tree = Some (Dir cs) /\ has_control cs = true) /\
+  kind_at [nm [118]; n_git]%N (clean Bzr only_unknown [] bzrgit_tree bzrgit_vs) = Some KDir /\
+  kind_at [nm [118]; nm [107]]%N (clean Bzr only_unknown [] bzrgit_tree bzrgit_vs) = None.
+Proof.
+  split; [reflexivity|]. split; [eexists; split; reflexivity|]. split; reflexivity.
 Qed.
